@@ -45,6 +45,7 @@ type crashEngine struct {
 	openArgs        [][2]string
 	pendingOpenArgs [][2]string
 	tier            string
+	drain           bool // C11: after recovery remove everything and run the collectors (keys drain=1)
 }
 
 func newCrashEngine() *crashEngine {
@@ -221,6 +222,7 @@ func (e *crashEngine) Exec(op *Op) string {
 	case "keys":
 		e.keys = strings.Split(op.Arg("k"), ",")
 		e.tier = op.Arg("tier")
+		e.drain = op.Arg("drain") == "1"
 		return "ok"
 	case "crashnext":
 		if len(e.queue) == 0 {
@@ -375,7 +377,7 @@ func (e *crashEngine) recover(img image) (res string) {
 		r2 = readAll(st2, append(append([]string{}, e.keys...), "1208fefefefe01020304"))
 		// C11 on a recovered store: remove everything, leave the files behind, collect; every non-current primary file must be
 		// released although the crash may have left records no index entry ever named
-		if mp, ok := st2.Primary().(*mhprimary.MultihashPrimary); ok && !imm && img.tear == "" {
+		if mp, ok := st2.Primary().(*mhprimary.MultihashPrimary); ok && !imm && img.tear == "" && e.drain {
 			st2.VerifAttachGC()
 			derr := ""
 			for _, k := range append(append([]string{}, e.keys...), "1208fefefefe01020304") {
@@ -469,13 +471,18 @@ type crashGen struct {
 	tier    string
 	fsOps   int
 	maxFS   int
+	drain11 bool
 }
 
 func newCrashGen(r *RNG, tier string, profile string) *crashGen {
 	if profile == "" {
 		profile = "c04"
 	}
-	g := &crashGen{inner: newSeqGen(r, tier, profile), tier: tier}
+	drain11 := profile == "c11d"
+	if drain11 {
+		profile = "c04"
+	}
+	g := &crashGen{inner: newSeqGen(r, tier, profile), tier: tier, drain11: drain11}
 	g.inner.kind = "mh"
 	g.inner.maxOps = 10 + r.Intn(25)
 	g.maxFS = 3 + r.Intn(3)
@@ -496,6 +503,9 @@ func (g *crashGen) Next(r *RNG, hist []Op) (Op, bool) {
 		ks := make([]string, len(g.inner.keys))
 		for i, k := range g.inner.keys {
 			ks[i] = hex.EncodeToString(k)
+		}
+		if g.drain11 {
+			return mkOp("keys", "k", strings.Join(ks, ","), "tier", g.tier, "drain", "1"), true
 		}
 		return mkOp("keys", "k", strings.Join(ks, ","), "tier", g.tier), true
 	}
